@@ -169,7 +169,7 @@ def gen_inputs(tier):
     # (2d) postfix chains in computed fields: atom x optional unary minus x every sequence of <= 2 (quick) / 3 postfix operators
     #      (conversion, member access, subscripts, calls) - the operators whose precedence interacts in the expression parser
     atoms = ["x", "v", "m", "r", "a", "1"]
-    posts = [" as int", " as long", " as Y", ".x", ".f", "[0]", "[]", "[0, 1]", "['k']", "()", "(0)"]
+    posts = [" as int", " as long", " as Y", ".x", ".f", "[0]", "[]", "[0, 1]", "['k']", "()", "(0)", "[x: 0]", "[x: 0, y: 1]", "[q: 0, 1]"]
     for atom in atoms:
         for pre in ("", "-"):
             for n in range(1, (2 if quick else 3) + 1):
@@ -187,6 +187,26 @@ def gen_inputs(tier):
         for t in [""] + simple_tails:
             for hn, h in chosts.items():
                 yield ("cycle/" + hn, {"model.yml": HOST + "G<T>: T*\n" + cyc + h % q(base + t)}, PKG)
+    # (2f) YAML anchors and aliases in every position of a small model (keys, type expressions, dimension maps, values)
+    anchor_vals = ["", "int", "~", "[int, string]", "!vector {items: int}", "{x: 2}"]
+    for av in anchor_vals:
+        for where in ("X: &a %s\nY: *a\n", "X: &a %s\n*a : int\n", "W: !record\n  fields:\n    f: &a %s\n    g: *a\n", "W: !record\n  fields:\n    f: &a %s\n*a : int\n",
+                      "W: !array\n  items: int\n  dimensions: {x: &a %s, y: *a}\n", "W: !array\n  items: int\n  dimensions: {x: &a %s, y: }\n*a : int\n",
+                      "W: !enum\n  values: {p: &a %s, q: *a}\n", "W: !union\n  p: &a %s\n  q: *a\n", "W: &a !vector\n  items: %s\nV: *a\n",
+                      "PP: !protocol\n  sequence:\n    s: &a %s\n    t: *a\n"):
+            yield ("anchors", {"model.yml": HOST + where % av}, PKG)
+    for self_ref in ("X: &a [int, *a]\n", "W: !record\n  fields:\n    f: &t !vector {items: *t}\n", "X: &a {k: *a}\n", "&k X: int\n*k : int\n"):
+        yield ("anchors", {"model.yml": HOST + self_ref}, PKG)
+    # (2g) computed field reference cycles through every kind of sub-expression (plain, call argument, subscript, switch case with
+    #      and without a declared variable, conversion)
+    edges = ["%s", "%s + 1", "size(v) + %s", "v[%s]", "%s as long", "-%s", "(%s)"]
+    sw = ["\n      !switch u:\n        int i: %s\n        string t: 0", "\n      !switch u:\n        int: %s\n        _: 0", "\n      !switch o:\n        int k: k + %s\n        _: 0"]
+    for e1 in edges + sw:
+        for e2 in edges + sw:
+            body = "    ca: %s\n    cb: %s\n" % (e1 % "cb", e2 % "ca")
+            yield ("computed-cycle", {"model.yml": HOST.replace("E: !enum", "  computedFields:\n" + body + "E: !enum", 1)}, PKG)
+        body = "    ca: %s\n" % (e1 % "ca")
+        yield ("computed-cycle", {"model.yml": HOST.replace("E: !enum", "  computedFields:\n" + body + "E: !enum", 1)}, PKG)
     # (2c) every import graph on <= 3 packages (termination and located errors of the loader; verdicts are C18's business)
     import c18
     for n in range(1, 4):
